@@ -438,7 +438,10 @@ class Parser:
                     )
 
     def expand_expression(self, name: str, expr: str) -> Tuple[str, int]:
-        rdepth_limit = 10
+        # Every pass of the loop below replaces one constant by its (already
+        # evaluated) value for good, so a well-formed expression needs at most
+        # one pass per known constant.
+        rdepth_limit = max(10, len(self.constants))
         n = 0
         symbol_regex = r"\b(?P<symbol>[a-zA-Z_]+\w*)\b"
         m = re.search(symbol_regex, expr)
